@@ -14,7 +14,7 @@ META = {
         "sample files. Signature = (kind, nvdim, label class, validity class, subregions, "
         "value class, mesh signature); non-trivial when >= 2 directions have >= 2 cells."
     ),
-    "cases": {"quick": 400, "thorough": 12000},
+    "cases": {"quick": 400, "thorough": 48000},
     "workers": {"quick": 8, "thorough": 16},
     "timeout": {"quick": 600, "thorough": 5400},
     "deciding": [
